@@ -299,43 +299,96 @@ theorem sectionLength_le_max (f : LineFeature F) (sec : List (Segment F)) (h : s
     @sectionLength F (fieldScalar T) sec ≤ @LineFeature.maxTotalLength F (fieldScalar T) f :=
   (foldl_maxLen_ge T f.sections _).2 sec h
 
-theorem foldl_maxTh_inner (sec : List (Segment F)) (m : F) :
-    m ≤ sec.foldl (fun m s => @Scalar.max F (fieldScalar T) (@Scalar.max F (fieldScalar T) m s.thickness.x) s.thickness.y) m ∧
-    ∀ s ∈ sec, s.thickness.x ≤ sec.foldl (fun m s => @Scalar.max F (fieldScalar T) (@Scalar.max F (fieldScalar T) m s.thickness.x) s.thickness.y) m ∧
-      s.thickness.y ≤ sec.foldl (fun m s => @Scalar.max F (fieldScalar T) (@Scalar.max F (fieldScalar T) m s.thickness.x) s.thickness.y) m := by
+/-- one step of the fold of `maximum_slab_thickness`: the two thickness entries, and — slabs only — the negated top truncations
+(upstream 'fix: depth cut-off ignored material above the slab surface') -/
+noncomputable def thStep (isFault : Bool) (m : F) (s : Segment F) : F :=
+  let m := @Scalar.max F (fieldScalar T) (@Scalar.max F (fieldScalar T) m s.thickness.x) s.thickness.y
+  if isFault then m
+  else @Scalar.max F (fieldScalar T) (@Scalar.max F (fieldScalar T) m (@Neg.neg F (fieldScalar T).toNeg s.topTruncation.x))
+    (@Neg.neg F (fieldScalar T).toNeg s.topTruncation.y)
+
+theorem maxThickness_eq (f : LineFeature F) :
+    @LineFeature.maxThickness F (fieldScalar T) f =
+      f.sections.foldl (fun m sec => sec.foldl (thStep T f.isFault) m) (@OfNat.ofNat F 0 (@Scalar.instOfNat F (fieldScalar T) 0)) := rfl
+
+theorem thStep_ge (isFault : Bool) (m : F) (s : Segment F) :
+    m ≤ thStep T isFault m s ∧ s.thickness.x ≤ thStep T isFault m s ∧ s.thickness.y ≤ thStep T isFault m s ∧
+    (isFault = false → -s.topTruncation.x ≤ thStep T isFault m s ∧ -s.topTruncation.y ≤ thStep T isFault m s) := by
+  have b1 : m ≤ @Scalar.max F (fieldScalar T) (@Scalar.max F (fieldScalar T) m s.thickness.x) s.thickness.y :=
+    le_trans (cull_smax_ge_left T _ _) (cull_smax_ge_left T _ _)
+  have b2 : s.thickness.x ≤ @Scalar.max F (fieldScalar T) (@Scalar.max F (fieldScalar T) m s.thickness.x) s.thickness.y :=
+    le_trans (cull_smax_ge_right T _ _) (cull_smax_ge_left T _ _)
+  have b3 : s.thickness.y ≤ @Scalar.max F (fieldScalar T) (@Scalar.max F (fieldScalar T) m s.thickness.x) s.thickness.y :=
+    cull_smax_ge_right T _ _
+  unfold thStep
+  cases isFault with
+  | true =>
+    simp only [if_true]
+    exact ⟨b1, b2, b3, fun h => by cases h⟩
+  | false =>
+    simp only [Bool.false_eq_true, if_false]
+    have c1 := cull_smax_ge_left T (@Scalar.max F (fieldScalar T)
+      (@Scalar.max F (fieldScalar T) (@Scalar.max F (fieldScalar T) m s.thickness.x) s.thickness.y) (-s.topTruncation.x)) (-s.topTruncation.y)
+    have c2 := cull_smax_ge_left T (@Scalar.max F (fieldScalar T) (@Scalar.max F (fieldScalar T) m s.thickness.x) s.thickness.y)
+      (-s.topTruncation.x)
+    have c3 := cull_smax_ge_right T (@Scalar.max F (fieldScalar T) (@Scalar.max F (fieldScalar T) m s.thickness.x) s.thickness.y)
+      (-s.topTruncation.x)
+    have c4 := cull_smax_ge_right T (@Scalar.max F (fieldScalar T)
+      (@Scalar.max F (fieldScalar T) (@Scalar.max F (fieldScalar T) m s.thickness.x) s.thickness.y) (-s.topTruncation.x)) (-s.topTruncation.y)
+    exact ⟨le_trans b1 (le_trans c2 c1), le_trans b2 (le_trans c2 c1), le_trans b3 (le_trans c2 c1),
+      fun _ => ⟨le_trans c3 c1, c4⟩⟩
+
+theorem foldl_maxTh_inner (isFault : Bool) (sec : List (Segment F)) (m : F) :
+    m ≤ sec.foldl (thStep T isFault) m ∧
+    ∀ s ∈ sec, s.thickness.x ≤ sec.foldl (thStep T isFault) m ∧ s.thickness.y ≤ sec.foldl (thStep T isFault) m ∧
+      (isFault = false → -s.topTruncation.x ≤ sec.foldl (thStep T isFault) m ∧ -s.topTruncation.y ≤ sec.foldl (thStep T isFault) m) := by
   induction sec generalizing m with
   | nil => exact ⟨le_rfl, fun _ h => by cases h⟩
   | cons a t ih =>
     simp only [List.foldl_cons]
-    obtain ⟨i1, i2⟩ := ih (@Scalar.max F (fieldScalar T) (@Scalar.max F (fieldScalar T) m a.thickness.x) a.thickness.y)
-    refine ⟨le_trans (le_trans (cull_smax_ge_left T _ _) (cull_smax_ge_left T _ _)) i1, fun s hs => ?_⟩
+    obtain ⟨i1, i2⟩ := ih (thStep T isFault m a)
+    obtain ⟨g1, g2, g3, g4⟩ := thStep_ge T isFault m a
+    refine ⟨le_trans g1 i1, fun s hs => ?_⟩
     rcases List.mem_cons.1 hs with rfl | h
-    · exact ⟨le_trans (le_trans (cull_smax_ge_right T _ _) (cull_smax_ge_left T _ _)) i1, le_trans (cull_smax_ge_right T _ _) i1⟩
+    · exact ⟨le_trans g2 i1, le_trans g3 i1, fun hf => ⟨le_trans (g4 hf).1 i1, le_trans (g4 hf).2 i1⟩⟩
     · exact i2 s h
 
-theorem foldl_maxTh_outer (secs : List (List (Segment F))) (m : F) :
-    m ≤ secs.foldl (fun m sec => sec.foldl (fun m s => @Scalar.max F (fieldScalar T) (@Scalar.max F (fieldScalar T) m s.thickness.x) s.thickness.y) m) m ∧
+theorem foldl_maxTh_outer (isFault : Bool) (secs : List (List (Segment F))) (m : F) :
+    m ≤ secs.foldl (fun m sec => sec.foldl (thStep T isFault) m) m ∧
     ∀ sec ∈ secs, ∀ s ∈ sec,
-      s.thickness.x ≤ secs.foldl (fun m sec => sec.foldl (fun m s => @Scalar.max F (fieldScalar T) (@Scalar.max F (fieldScalar T) m s.thickness.x) s.thickness.y) m) m ∧
-      s.thickness.y ≤ secs.foldl (fun m sec => sec.foldl (fun m s => @Scalar.max F (fieldScalar T) (@Scalar.max F (fieldScalar T) m s.thickness.x) s.thickness.y) m) m := by
+      s.thickness.x ≤ secs.foldl (fun m sec => sec.foldl (thStep T isFault) m) m ∧
+      s.thickness.y ≤ secs.foldl (fun m sec => sec.foldl (thStep T isFault) m) m ∧
+      (isFault = false → -s.topTruncation.x ≤ secs.foldl (fun m sec => sec.foldl (thStep T isFault) m) m ∧
+        -s.topTruncation.y ≤ secs.foldl (fun m sec => sec.foldl (thStep T isFault) m) m) := by
   induction secs generalizing m with
   | nil => exact ⟨le_rfl, fun _ h => by cases h⟩
   | cons a t ih =>
     simp only [List.foldl_cons]
-    obtain ⟨j1, j2⟩ := foldl_maxTh_inner T a m
-    obtain ⟨i1, i2⟩ := ih (a.foldl (fun m s => @Scalar.max F (fieldScalar T) (@Scalar.max F (fieldScalar T) m s.thickness.x) s.thickness.y) m)
+    obtain ⟨j1, j2⟩ := foldl_maxTh_inner T isFault a m
+    obtain ⟨i1, i2⟩ := ih (a.foldl (thStep T isFault) m)
     refine ⟨le_trans j1 i1, fun sec hsec s hs => ?_⟩
     rcases List.mem_cons.1 hsec with rfl | h
-    · exact ⟨le_trans (j2 s hs).1 i1, le_trans (j2 s hs).2 i1⟩
+    · obtain ⟨k1, k2, k3⟩ := j2 s hs
+      exact ⟨le_trans k1 i1, le_trans k2 i1, fun hf => ⟨le_trans (k3 hf).1 i1, le_trans (k3 hf).2 i1⟩⟩
     · exact i2 sec h s hs
 
-/-- every thickness entry is at most `maximum_slab_thickness`, which is non-negative -/
+/-- every thickness entry is at most `maximum_slab_thickness` -/
 theorem thickness_le_max (f : LineFeature F) (sec : List (Segment F)) (h : sec ∈ f.sections) (s : Segment F) (hs : s ∈ sec) :
-    s.thickness.x ≤ @LineFeature.maxThickness F (fieldScalar T) f ∧ s.thickness.y ≤ @LineFeature.maxThickness F (fieldScalar T) f :=
-  (foldl_maxTh_outer T f.sections _).2 sec h s hs
+    s.thickness.x ≤ @LineFeature.maxThickness F (fieldScalar T) f ∧ s.thickness.y ≤ @LineFeature.maxThickness F (fieldScalar T) f := by
+  rw [maxThickness_eq]
+  obtain ⟨k1, k2, _⟩ := (foldl_maxTh_outer T f.isFault f.sections _).2 sec h s hs
+  exact ⟨k1, k2⟩
+
+/-- slabs: every negated top truncation is at most `maximum_slab_thickness` (after the upstream repair) -/
+theorem neg_topTruncation_le_max (f : LineFeature F) (hf : f.isFault = false) (sec : List (Segment F)) (h : sec ∈ f.sections)
+    (s : Segment F) (hs : s ∈ sec) :
+    -s.topTruncation.x ≤ @LineFeature.maxThickness F (fieldScalar T) f ∧ -s.topTruncation.y ≤ @LineFeature.maxThickness F (fieldScalar T) f := by
+  rw [maxThickness_eq]
+  exact ((foldl_maxTh_outer T f.isFault f.sections _).2 sec h s hs).2.2 hf
 
 theorem maxThickness_nonneg (f : LineFeature F) : 0 ≤ @LineFeature.maxThickness F (fieldScalar T) f := by
-  have h := (foldl_maxTh_outer T f.sections (@OfNat.ofNat F 0 (@Scalar.instOfNat F (fieldScalar T) 0))).1
+  rw [maxThickness_eq]
+  have h := (foldl_maxTh_outer T f.isFault f.sections (@OfNat.ofNat F 0 (@Scalar.instOfNat F (fieldScalar T) 0))).1
   have h0 : (0 : F) ≤ @OfNat.ofNat F 0 (@Scalar.instOfNat F (fieldScalar T) 0) := by rw [lit_0]
   exact le_trans h0 h
 
@@ -362,6 +415,24 @@ theorem thLocal_le (f : LineFeature F) (secCur secNext : List (Segment F)) (cur 
   obtain ⟨c1, c2⟩ := thickness_le_max T f secCur h1 cur hc
   obtain ⟨n1, n2⟩ := thickness_le_max T f secNext h2 next hn
   exact lerpC_le T _ _ _ _ hg0 hg1 (lerpC_le T _ _ _ _ hs0 hs1 c1 n1) (lerpC_le T _ _ _ _ hs0 hs1 c2 n2)
+
+/-- slabs: the interpolated top truncation is not below `−maximum_slab_thickness` -/
+theorem neg_maxThickness_le_ttLocal (f : LineFeature F) (hf : f.isFault = false) (secCur secNext : List (Segment F))
+    (cur next : Segment F) (sf gf : F)
+    (h1 : secCur ∈ f.sections) (h2 : secNext ∈ f.sections) (hc : cur ∈ secCur) (hn : next ∈ secNext)
+    (hs0 : 0 ≤ sf) (hs1 : sf ≤ 1) (hg0 : 0 ≤ gf) (hg1 : gf ≤ 1) :
+    -@LineFeature.maxThickness F (fieldScalar T) f ≤ @Segment.ttLocal F (fieldScalar T) cur next sf gf := by
+  obtain ⟨c1, c2⟩ := neg_topTruncation_le_max T f hf secCur h1 cur hc
+  obtain ⟨n1, n2⟩ := neg_topTruncation_le_max T f hf secNext h2 next hn
+  have h := lerpC_le T _ _ _ _ hg0 hg1 (lerpC_le T _ _ _ _ hs0 hs1 c1 n1) (lerpC_le T _ _ _ _ hs0 hs1 c2 n2)
+  have e : @Segment.ttLocal F (fieldScalar T) cur next sf gf =
+      -@lerpC F (fieldScalar T) (@lerpC F (fieldScalar T) (-cur.topTruncation.x) (-next.topTruncation.x) sf)
+        (@lerpC F (fieldScalar T) (-cur.topTruncation.y) (-next.topTruncation.y) sf) gf := by
+    unfold Segment.ttLocal
+    simp only [lerpC_field]
+    ring
+  rw [e]
+  linarith
 
 end field
 end Gwb
